@@ -72,21 +72,29 @@ def model_grads(prog, mr):
 
 def run_impl_call(case, call, dtype, agg_obj=None):
     prog = ajlib.Program.from_json(case["prog"])
-    ts = prog.build(dtype)
+    if dtype == "narrow":
+        # float32 leaves, float64 computation: the Jacobian, the aggregator's weights and .grad are float32
+        ts = prog.build(torch.float64, narrow=True)
+        dtype = torch.float32
+    else:
+        ts = prog.build(dtype)
     ajlib.set_old_grads(ts, prog, case["old"], dtype)
     err = ajlib.impl_call(ts, call, dtype, agg_obj)
     return err, ajlib.snapshot_grads(ts, prog), ts, prog
 
 
-def check_case(chk, pid, case, model_runs, dtypes=((torch.float64, 0.0), (torch.float32, 1e-4))):
+def check_case(chk, pid, case, model_runs, dtypes=((torch.float64, 0.0), (torch.float32, 1e-4), ("narrow", 1e-4))):
     """valid calls: implementation == oracle (exact in f64 for integer aggregators) and
     model == oracle.  Returns True when everything agrees."""
     prog = ajlib.Program.from_json(case["prog"])
     ok = True
     for ci, call in enumerate(case["calls"]):
         exp = ajlib.oracle_call(prog, call, case["old"])
-        exact_agg = call["agg"][0] != "mean"
+        exact_agg = call["agg"][0] != "mean" and not case.get("inexact") and not (
+            call["agg"][0] == "constant" and any(float(w) != int(w) for w in call["agg"][1]))
         for dtype, tol in dtypes:
+            if dtype == "narrow" and (case["id"] + ci) % 2:
+                continue
             if dtype == torch.float64 and not exact_agg:
                 tol = 1e-12
             err, grads, _, _ = run_impl_call(case, call, dtype)
@@ -151,6 +159,9 @@ def rand_weights(rng, m):
     ws = [w if rng.random() < 0.75 else -w for w in ws]
     if rng.random() < 0.3:
         ws[rng.randrange(m)] = 0
+    if rng.random() < 0.3:
+        # weights that float32 cannot hold (k + odd * 2^-30, exact in float64): a float64 call keeps them
+        ws = [float(w) + (2 * rng.randint(0, 2 ** 8) + 1) * 2.0 ** -30 for w in ws]
     return ws
 
 
